@@ -9,7 +9,9 @@
 (* trees.json: [trees, alphabet, maxlen, policies, validints]              *)
 (*   trees[t] = [nodes, version]; nodes[1] is the application              *)
 (*   node = [names (aliases, as strings), path (string), prog, ast,        *)
-(*           hasgrp, hasend, subs (node indices), action (BOOLEAN)]        *)
+(*           hasgrp, hasend, subs (node indices), action (BOOLEAN),        *)
+(*           policy ("" = inherited, or the policy the command's           *)
+(*           initialiser sets)]                                            *)
 (* A token is a sequence of characters; sub command names and version      *)
 (* names are compared after Join.                                          *)
 (***************************************************************************)
@@ -32,8 +34,9 @@ VARIABLES ti, policy, argv,
           helpMode,  \* descending for a help request: no validation, no flows
           levels,    \* what happened so far: sequence of [node, acc] for every validated level
           outcome,   \* <<>> while running; [kind, node, ...] at the end
-          emitted
-vars == <<ti, policy, argv, node, rest, helpMode, levels, outcome, emitted>>
+          emitted,
+          pol        \* the error policy of the command being parsed: its own if its initialiser sets one, else its parent's
+vars == <<ti, policy, argv, node, rest, helpMode, levels, outcome, emitted, pol>>
 
 Tree == In.trees[ti]
 N(i) == Tree.nodes[i]
@@ -43,8 +46,11 @@ Prog(i) == LET p == N(i).prog IN [short |-> p.short, long |-> p.long, flags |-> 
 Argvs(t) == IF Len(In.trees[t].vectors) > 0 THEN SeqToSet(In.trees[t].vectors) ELSE SeqsUpTo(In.maxlen)
 Init == /\ ti \in DOMAIN In.trees /\ policy \in SeqToSet(In.policies) /\ argv \in Argvs(ti)
         /\ node = 1 /\ rest = argv /\ helpMode = FALSE /\ levels = <<>> /\ outcome = <<>> /\ emitted = FALSE
+        /\ pol = IF In.trees[ti].nodes[1].policy # "" THEN In.trees[ti].nodes[1].policy ELSE policy
 
 Running == outcome = <<>>
+\* Cmd.Command copies the parent's ErrorHandling into the new command; the command's initialiser may then set its own
+Inherit(n) == IF N(n).policy # "" THEN N(n).policy ELSE pol
 
 (* helpIndex: position (1-based) of the first help token before any --, 0 if none *)
 RECURSIVE HelpIdx(_, _)
@@ -63,8 +69,8 @@ Ctx(i) == [P |-> Prog(i), env |-> {}, D |-> Clean]
 Acc(i, w) == AccMaps(Ctx(i), N(i).ast, w)
 AccGreedy(i, w) == AccMaps([P |-> Prog(i), env |-> {}, D |-> [Clean EXCEPT !.greedy = TRUE]], N(i).ast, w)
 
-\* a value bound to the Int option -n that strconv rejects
-BadInt(m) == \E v \in DOMAIN m : v = <<"O", "-n">> /\ \E k \in 1..Len(m[v]) : Join(m[v][k]) \notin SeqToSet(In.validints)
+\* a value bound to the Int option -n or to the Int argument N that strconv rejects
+BadInt(m) == \E v \in DOMAIN m : (v = <<"O", "-n">> \/ v = <<"A", "N">>) /\ \E k \in 1..Len(m[v]) : Join(m[v][k]) \notin SeqToSet(In.validints)
 ConvErr(acc) == \E m \in acc : BadInt(m)
 
 (* cli.go: Cli.parse - version flag in first position *)
@@ -72,7 +78,7 @@ Version ==
   /\ Running /\ node = 1 /\ levels = <<>> /\ ~helpMode /\ rest = argv
   /\ Len(Tree.version) > 0 /\ Len(argv) > 0 /\ Join(argv[1]) \in SeqToSet(Tree.version)
   /\ outcome' = [kind |-> "version", node |-> 1]
-  /\ UNCHANGED <<ti, policy, argv, node, rest, helpMode, levels, emitted>>
+  /\ UNCHANGED <<ti, policy, argv, node, rest, helpMode, levels, emitted, pol>>
 
 NotVersion == ~(node = 1 /\ levels = <<>> /\ ~helpMode /\ rest = argv /\ Len(Tree.version) > 0 /\ Len(argv) > 0 /\ Join(argv[1]) \in SeqToSet(Tree.version))
 
@@ -81,7 +87,7 @@ HelpHere ==
   /\ Running /\ NotVersion
   /\ LET hi == HelpIndex(rest) nl == NArgs(node, rest) IN hi > 0 /\ hi <= nl
   /\ outcome' = [kind |-> "help", node |-> node]
-  /\ UNCHANGED <<ti, policy, argv, node, rest, helpMode, levels, emitted>>
+  /\ UNCHANGED <<ti, policy, argv, node, rest, helpMode, levels, emitted, pol>>
 
 (* help was requested further down: descend without validating *)
 HelpDescend ==
@@ -89,6 +95,7 @@ HelpDescend ==
   /\ LET hi == HelpIndex(rest) nl == NArgs(node, rest) IN
      /\ hi > 0 /\ hi > nl
      /\ node' = SubFor(node, rest[nl + 1]) /\ rest' = SubSeq(rest, nl + 2, Len(rest)) /\ helpMode' = TRUE
+     /\ pol' = Inherit(SubFor(node, rest[nl + 1]))
   /\ UNCHANGED <<ti, policy, argv, levels, outcome, emitted>>
 
 (* validation of this level's own tokens *)
@@ -97,7 +104,7 @@ Reject ==
   /\ Running /\ NotVersion /\ HelpIndex(rest) = 0
   /\ LET acc == Acc(node, Own) IN acc = {} \/ ConvErr(acc)
   /\ outcome' = [kind |-> "reject", node |-> node]
-  /\ UNCHANGED <<ti, policy, argv, node, rest, helpMode, levels, emitted>>
+  /\ UNCHANGED <<ti, policy, argv, node, rest, helpMode, levels, emitted, pol>>
 
 Accepted == HelpIndex(rest) = 0 /\ LET acc == Acc(node, Own) IN acc # {} /\ ~ConvErr(acc)
 
@@ -105,18 +112,19 @@ Descend ==
   /\ Running /\ NotVersion /\ Accepted /\ NArgs(node, rest) < Len(rest)
   /\ levels' = Append(levels, [node |-> node, acc |-> Acc(node, Own), own |-> Own])
   /\ node' = SubFor(node, rest[NArgs(node, rest) + 1]) /\ rest' = SubSeq(rest, NArgs(node, rest) + 2, Len(rest))
+  /\ pol' = Inherit(SubFor(node, rest[NArgs(node, rest) + 1]))
   /\ UNCHANGED <<ti, policy, argv, helpMode, outcome, emitted>>
 
 Run ==
   /\ Running /\ NotVersion /\ Accepted /\ NArgs(node, rest) = Len(rest) /\ N(node).action
   /\ levels' = Append(levels, [node |-> node, acc |-> Acc(node, Own), own |-> Own])
   /\ outcome' = [kind |-> "run", node |-> node]
-  /\ UNCHANGED <<ti, policy, argv, node, rest, helpMode, emitted>>
+  /\ UNCHANGED <<ti, policy, argv, node, rest, helpMode, emitted, pol>>
 
 NoAction ==
   /\ Running /\ NotVersion /\ Accepted /\ NArgs(node, rest) = Len(rest) /\ ~N(node).action
   /\ outcome' = [kind |-> "noaction", node |-> node]
-  /\ UNCHANGED <<ti, policy, argv, node, rest, helpMode, levels, emitted>>
+  /\ UNCHANGED <<ti, policy, argv, node, rest, helpMode, levels, emitted, pol>>
 
 MapSeq(m) == SetToSeq({[kind |-> v[1], name |-> v[2], vals |-> m[v]] : v \in DOMAIN m})
 MapsSeq(ms) == SetToSeq({MapSeq(m) : m \in ms})
@@ -134,11 +142,11 @@ GreedyMatters == \E k \in 1..Len(levels) : AccGreedy(levels[k].node, levels[k].o
 
 Emit == /\ ~Running /\ ~emitted /\ emitted' = TRUE
         /\ PrintT("TREE " \o ToJson([ti |-> ti - 1, policy |-> policy, argv |-> argv, kind |-> outcome.kind,
-                                      path |-> N(outcome.node).path, helpmode |-> helpMode,
+                                      path |-> N(outcome.node).path, helpmode |-> helpMode, npolicy |-> pol,
                                       levels |-> [k \in 1..Len(levels) |-> [path |-> N(levels[k].node).path, acc |-> MapsSeq(levels[k].acc)]],
                                       unclaimed |-> UnclaimedHelp,
                                       greedy |-> IF outcome.kind = "reject" THEN AccGreedy(outcome.node, Own) # Acc(outcome.node, Own) ELSE GreedyMatters]))
-        /\ UNCHANGED <<ti, policy, argv, node, rest, helpMode, levels, outcome>>
+        /\ UNCHANGED <<ti, policy, argv, node, rest, helpMode, levels, outcome, pol>>
 
 Next == Version \/ HelpHere \/ HelpDescend \/ Reject \/ Descend \/ Run \/ NoAction \/ Emit
 Spec == Init /\ [][Next]_vars /\ WF_vars(Next)
